@@ -485,6 +485,10 @@ def matching_module_table(ctx: Ctx) -> Dict[str, Tuple[str, bool]]:
             continue
         mode = pos[0].rsplit(".", 1)[1]
         rv = p.retval
+        if p.exit and p.exit[0] == "raise":
+            ctx.violate("R-CMPDIR", "_get_matching_module", f"{mode}:rejected", f"the supported matching mode {mode} raises {p.exit[1]}", fi=fi)
+            out[mode] = ("(raises)", False)
+            continue
         ctx.require(isinstance(rv, ast.Tuple) and len(rv.elts) == 2 and isinstance(rv.elts[1], ast.Constant), f"_get_matching_module: row {mode} does not return (class, bool)")
         out[mode] = (S(rv.elts[0]), bool(rv.elts[1].value))
     return out
@@ -505,7 +509,15 @@ def is_better_than_op(ctx: Ctx, cname: str) -> Tuple[Optional[str], bool, object
         val = p.retval.value if isinstance(p.retval, ast.Constant) else None
         if vn is True:
             none_false = val is False
+            cmp_on_none = [k for k in p.facts if k.startswith("cmp:") and "self.value" in k]
+            if cmp_on_none:
+                ctx.violate("R-CMPDIR", f"{cname}.is_better_than", "compares-missing-score", f"{cname}.is_better_than evaluates `{cmp_on_none[0][4:]}` on the path where the score is None (no ground truth): "
+                            "a missing score must simply be `not better` (and an existing one must be compared)", fi=fi)
+                return "?", none_false, fi
             continue
+        if vn is False and isinstance(p.retval, ast.Constant) and not any(k.startswith("cmp:") and "self.value" in k for k in p.facts):
+            ctx.violate("R-CMPDIR", f"{cname}.is_better_than", "ignores-score", f"{cname}.is_better_than returns {p.retval.value} for an existing score without comparing it with the threshold", fi=fi)
+            return "?", none_false, fi
         lt = p.facts.get(f"cmp:self.value < {thr}")
         gt = p.facts.get(f"cmp:{thr} < self.value")
         le = p.facts.get(f"cmp:self.value <= {thr}")
@@ -532,6 +544,8 @@ def rule_cmpdir(ctx: Ctx, rule: str = "R-CMPDIR") -> None:
         ctx.check(got_cls == cname, rule, "_get_matching_module", f"{mode}:class", f"mode {mode} is scored with {got_cls}, expected {cname}", fi=fi_mod)
         op, none_false, fi = is_better_than_op(ctx, cname)
         want = BETTER[cname]
+        if op == "?":
+            continue
         if op is None:
             # not a single comparison: look at the polarity with which the threshold occurs (E8)
             thr = fi.params()[0].arg
